@@ -32,11 +32,9 @@ func readOnlyExt(fn *ssa.Function) (bool, int) {
 	case "strings", "strconv", "unicode", "unicode/utf8", "errors":
 		return true, -1
 	case "bytes":
-		switch name {
-		case "TrimSpace", "NewReader", "TrimLeft", "TrimRight", "Trim":
+		// package-level functions of bytes never write through their arguments; results may alias argument 0
+		if fn.Signature.Recv() == nil {
 			return true, 0
-		case "Equal", "Contains", "HasPrefix", "HasSuffix", "Index", "IndexByte":
-			return true, -1
 		}
 	case "regexp":
 		switch name {
